@@ -15,6 +15,9 @@ use crate::{
 
 pub use self::validator::ConnectionValidator;
 
+#[cfg(all(target_os = "linux", feature = "io-uring", feature = "verif-hooks"))]
+pub use self::uring::verif_hooks as verif_uring;
+
 #[cfg(all(not(target_os = "linux"), feature = "io-uring"))]
 compile_error!("io_uring feature is only supported on Linux");
 
